@@ -22,6 +22,21 @@ EXPLANATION = (
 RULE = ("instances = tokenizer arms, cursor stores/slices with affine offsets, templates, address constructions, "
         "coin constants, flow hops of version_id; non-trivial = carries an offset/constant/guard obligation")
 
+
+def _nb(xs):
+    """the evaluator keeps n_bytes == bytes.len() (written only by the constructor, checked by C06.eof): a test against
+    bytes.len() is a test against n_bytes"""
+    return sorted(set(x.replace('len(self.bytes)', 'self.n_bytes') for x in xs))
+
+
+def guards_at(body, bb):
+    return _nb(util.guards_at(body, bb))
+
+
+def guards_for(body, bb, operand):
+    return _nb(util.guards_for(body, bb, operand))
+
+
 EV = "ScriptEvaluator::<'a>::"
 WIDTHS = {76: 1, 77: 2, 78: 4}
 
@@ -38,7 +53,7 @@ def rule_arms(ctx):
     seen = {}
     for cs in ru:
         w = mir.int_value(m.op_expr(cs.args[1]))
-        g = util.guards_at(m, cs.bb)
+        g = guards_at(m, cs.bb)
         codes = [int(x) for gg in g for x in re.findall(r'a2\.code in \{(\d+)\}', gg)]
         if len(codes) != 1:
             ctx.violation('arms', 'read_uint-arm-without-opcode', cs, 'guards %s' % g)
@@ -66,14 +81,14 @@ def rule_arms(ctx):
     for l, ds in m.defs().items():
         for d in ds:
             if d[0] == 'assign' and canon(m.rvalue_expr(d[3])) == '((a3 as PushBytes).0 as usize)':
-                pb.append(util.guards_at(m, d[1]))
+                pb.append(guards_at(m, d[1]))
     ctx.check('arms', 'pushbytes-arm-guard', pb == [['a3 is PushBytes']], m, 'direct push length taken under %s' % pb)
     # default arm returns 0 for every other opcode
     z = []
     for l, ds in m.defs().items():
         for d in ds:
             if d[0] == 'assign' and canon(m.rvalue_expr(d[3])) == '0' and m.local_ty(l) == 'usize':
-                z.append(util.guards_at(m, d[1]))
+                z.append(guards_at(m, d[1]))
     ctx.check('arms', 'default-arm-zero', len(z) == 1 and any('a2.code notin {76,77,78}' in g for g in z[0]), m, 'other opcodes -> 0 under %s' % z)
     # the caller classifies the opcode at self.ip with the Legacy context
     ev = prog.one(EV + 'eval')
@@ -156,7 +171,7 @@ def rule_cursor(ctx):
               'after the push the cursor moves by len: %s' % [s[1] for s in after])
     ctx.check('cursor', 'ip-stores-total', len(stores) == 2, ev, '%d stores to ip in eval' % len(stores))
     # loop guard
-    g = util.guards_at(ev, call.bb)
+    g = guards_at(ev, call.bb)
     ctx.check('cursor', 'loop-guard', 'self.ip < self.n_bytes' in g, call, 'token loop runs while ip < n_bytes')
 
 
@@ -164,7 +179,7 @@ def rule_le(ctx):
     prog = ctx.prog
     r = prog.one(EV + 'read_uint')
     ctx.touch(r)
-    rets = [(canon(r.rvalue_expr(d[3])), util.guards_at(r, d[1])) for d in r.ret_defs() if d[0] == 'assign']
+    rets = [(canon(r.rvalue_expr(d[3])), guards_at(r, d[1])) for d in r.ret_defs() if d[0] == 'assign']
     item = 'each(take(enumerate(a1), a2))'
     le = 'Result::Ok{0: sum(((%s.1 as usize) << (%s.0 * 8)))}' % (item, item)
     ok = [x for x in rets if x[0].startswith('Result::Ok')]
@@ -182,9 +197,9 @@ def rule_eof(ctx):
     lenexpr = 'maybe_push_data(self, self.bytes[self.ip], classify(self.bytes[self.ip], ClassifyContext::Legacy{}))?'
     ds = [cs for cs in ev.calls if mir.method_name(cs.name) == 'index' and 'Range::Range' in canon(ev.op_expr(cs.args[1]))]
     for cs in ds:
-        g = util.guards_at(ev, cs.bb)
+        g = guards_at(ev, cs.bb)
         ctx.check('eof', 'data-slice-guard', '(self.ip + %s) <= self.n_bytes' % lenexpr in g, cs, 'data slice under %s' % [x for x in g if 'n_bytes' in x])
-    errs = [(canon(ev.rvalue_expr(d[3]) if d[0] == 'assign' else ev.call_expr(d[2])), util.guards_at(ev, d[1]), d[1]) for d in ev.ret_defs()]
+    errs = [(canon(ev.rvalue_expr(d[3]) if d[0] == 'assign' else ev.call_expr(d[2])), guards_at(ev, d[1]), d[1]) for d in ev.ret_defs()]
     e = [x for x in errs if x[0] == 'Result::Err{0: ScriptError::UnexpectedEof{}}']
     ctx.check('eof', 'overrun-returns-eof', len(e) == 1 and 'self.n_bytes < (self.ip + %s)' % lenexpr in e[0][1], ev,
               'UnexpectedEof under %s' % (e[0][1] if e else '?'))
@@ -198,7 +213,7 @@ def rule_eof(ctx):
     rets = {}
     for d in en.ret_defs():
         v = en.rvalue_expr(d[3]) if d[0] == 'assign' else en.call_expr(d[2])
-        rets[canon(v)] = util.guards_at(en, d[1])
+        rets[canon(v)] = guards_at(en, d[1])
     nr = 'EvaluatedScript::EvaluatedScript{address: Option::None{}, pattern: ScriptPattern::NotRecognised{}}'
     ctx.check('eof', 'eof->NotRecognised-no-address', rets.get(nr) == ['(eval(new(a1)) as Err).0 is UnexpectedEof', 'eval(new(a1)) is Err'], en,
               'Err(UnexpectedEof) -> %s' % ('NotRecognised/None' if nr in rets else sorted(rets)))
@@ -223,7 +238,7 @@ def rule_noop(ctx):
     dat = [cs for cs in pushes if canon(ev.op_expr(cs.args[1])).startswith('StackElement::Data')]
     ctx.check('noop', 'one-op-push-one-data-push', len(ops) == 1 and len(dat) == 1, ev, '%d Op push(es), %d Data push(es)' % (len(ops), len(dat)))
     for cs in ops:
-        g = util.guards_at(ev, cs.bb)
+        g = guards_at(ev, cs.bb)
         # ne(class, NoOp): resolve the promoted constant
         cmpc = [c2 for c2 in ev.calls if mir.method_name(c2.name) == 'ne' and ev.dominates(c2.bb, cs.bb)]
         rhs = canon(mir.unname(peel(ev.op_expr(cmpc[0].args[1])))) if cmpc else '?'
@@ -232,7 +247,7 @@ def rule_noop(ctx):
         ctx.check('noop', 'op-only-for-zero-length', '%s? <= 0' % lenc in g or '%s <= 0' % lenc in g, cs, 'Op token only when push length is 0')
         ctx.check('noop', 'op-is-the-fetched-opcode', canon(ev.op_expr(cs.args[1])) == 'StackElement::Op{0: self.bytes[self.ip]}', cs, canon(ev.op_expr(cs.args[1])))
     for cs in dat:
-        g = util.guards_for(ev, cs.bb, cs.args[1])
+        g = guards_for(ev, cs.bb, cs.args[1])
         ctx.check('noop', 'data-only-for-positive-length', any(x.startswith('0 < %s' % lenc) for x in g), cs, 'Data token only when push length > 0')
     # the token vector is the one matched against the templates and returned
     r = [canon(ev.rvalue_expr(d[3])) for d in ev.ret_defs() if d[0] == 'assign' and canon(ev.rvalue_expr(d[3])).startswith('Result::Ok')]
@@ -272,7 +287,7 @@ def rule_templates(ctx):
     for d in p.ret_defs():
         v = p.rvalue_expr(d[3]) if d[0] == 'assign' else p.call_expr(d[2])
         c = canon(v)
-        g = util.guards_at(p, d[1])
+        g = guards_at(p, d[1])
         pos = [x for x in g if x.startswith('match_stack_pattern(')]
         neg = [x[1:] for x in g if x.startswith('!match_stack_pattern(')]
         mvar = re.match(r'^ScriptPattern::(\w+)\{', c)
@@ -304,10 +319,10 @@ def rule_templates(ctx):
     for d in mt.ret_defs():
         alts = util.value_alternatives(mt, d[3]['op']) if d[0] == 'assign' and d[3]['k'] == 'use' else None
         if alts:
-            here = set(util.guards_at(mt, d[1]))
-            rets.extend((canon(e), tuple(sorted(here | set(util.guards_at(mt, bb))))) for e, bb in alts)
+            here = set(guards_at(mt, d[1]))
+            rets.extend((canon(e), tuple(sorted(here | set(guards_at(mt, bb))))) for e, bb in alts)
         else:
-            rets.append((canon(mt.rvalue_expr(d[3]) if d[0] == 'assign' else mt.call_expr(d[2])), tuple(util.guards_at(mt, d[1]))))
+            rets.append((canon(mt.rvalue_expr(d[3]) if d[0] == 'assign' else mt.call_expr(d[2])), tuple(guards_at(mt, d[1]))))
     # two accepted spellings of the pairwise walk: an index loop over 0..len (of either slice, the lengths are
     # equal there) or zip of the two slices; guards are abstracted to tokens
     walks = [('Range::Range{start: 0, end: len(a2)}', 'a1[each(%s)] != a2[each(%s)]'), ('Range::Range{start: 0, end: len(a1)}', 'a1[each(%s)] != a2[each(%s)]'),
@@ -341,7 +356,7 @@ def rule_templates(ctx):
                   ('false', ('a2 is Op', 'self is Data')), ('true', ('a2 is Data', 'self is Data'))])
     ctx.check('templates', 'element-eq:data-by-kind-ops-by-code', rets == exp, eq, 'StackElement::eq = %s' % rets)
     dt = prog.one('StackElement::data')
-    rets = sorted((canon(dt.rvalue_expr(d[3])), tuple(util.guards_at(dt, d[1]))) for d in dt.ret_defs() if d[0] == 'assign')
+    rets = sorted((canon(dt.rvalue_expr(d[3])), tuple(guards_at(dt, d[1]))) for d in dt.ret_defs() if d[0] == 'assign')
     ctx.check('templates', 'data()-returns-the-bytes', rets == sorted([('Result::Err{0: ScriptError::InvalidFormat{}}', ('self is Op',)), ('Result::Ok{0: (self as Data).0}', ('self is Data',))]), dt, '%s' % rets)
 
 
@@ -361,7 +376,7 @@ def rule_addr(ctx):
     for c in cs_.calls:
         mn = mir.method_name(c.name)
         if mn in ('public_key_to_addr', 'hash_160_to_address'):
-            g = util.guards_at(cs_, c.bb)
+            g = guards_at(cs_, c.bb)
             var = [re.match(r'a1\.pattern is (\w+)$', x).group(1) for x in g if re.match(r'a1\.pattern is (\w+)$', x)]
             e = prog.inline_only(cs_.call_expr(c), wrappers) if wrappers else cs_.call_expr(c)
             e = peel(e, calls=False)
@@ -374,13 +389,15 @@ def rule_addr(ctx):
                   bad_detail='%s address = %s(%s); expected %s(%s)' % (var, g[0] if g else '?', ', '.join(g[1]) if g else '?', fn_, ', '.join(args)))
     ctx.check('addr', 'no-other-address', set(got) == set(exp), cs_, 'addresses built for %s' % sorted(got))
     # returned aggregates: address Some(..) only in those three arms
-    ret = canon(cs_.ret_expr())
-    n_some = ret.count('address: Option::Some')
+    ret = canon(util.ctor_inlined(prog, cs_.ret_expr()))
+    # one per arm, whether each arm builds the whole result or only the address that a single construction uses
+    n_some = ret.count('Option::Some{0: hash_160_to_address(') + ret.count('Option::Some{0: public_key_to_addr(')
     ctx.check('addr', 'three-address-bearing-outcomes', n_some == 3, cs_, '%d outcomes carry an address' % n_some)
     # eval_from_stack maps errors to address-less results
     es = prog.one('custom::eval_from_stack')
     ctx.touch(es)
-    rets = sorted(canon(es.rvalue_expr(d[3])) for d in es.ret_defs() if d[0] == 'assign')
+    rets = sorted(canon(util.ctor_inlined(prog, es.rvalue_expr(d[3]) if d[0] == 'assign' else es.call_expr(d[2]))) for d in es.ret_defs()
+                  if d[0] == 'assign' or not mir.method_name(d[2].name) == 'from_residual')
     # the Ok value passes through; every other result (however the error arms are grouped) has address None
     okr = [r for r in rets if r == 'compute_stack(a1, a2)?']
     other = [r for r in rets if r != 'compute_stack(a1, a2)?']
